@@ -379,7 +379,7 @@ theorem skipLoop_spec {n : Nat} {d : Bits} (hw : WF n d) (hcap : Cap n) :
 theorem next_spec {n : Nat} {d : Bits} (hw : WF n d) (hcap : Cap n) (idx : Nat) (hidx : idx ≤ 64 * n) :
     (∃ j, idx ≤ j ∧ j < 64 * n ∧ bit d j = true ∧ (∀ y, idx ≤ y → y < j → bit d y = false) ∧
         next d idx = .ok (some j, j + 1)) ∨
-    ((∀ y, idx ≤ y → y < 64 * n → bit d y = false) ∧ ∃ i, next d idx = .ok (none, i)) := by
+    ((∀ y, idx ≤ y → y < 64 * n → bit d y = false) ∧ ∃ i, next d idx = .ok (none, i) ∧ idx ≤ i ∧ i ≤ 64 * n) := by
   have hcap' : 64 * n + 64 ≤ 2 ^ 64 := hcap
   have hlim : d.length * 64 = 64 * n := by rw [hw.1]; omega
   obtain ⟨i, e, h1, h2, h3, h4⟩ := skipLoop_spec hw hcap (d.length + 1) idx hidx (by rw [hw.1]; omega)
@@ -391,7 +391,7 @@ theorem next_spec {n : Nat} {d : Bits} (hw : WF n d) (hcap : Cap n) (idx : Nat) 
   by_cases hge : i ≥ 64 * n
   · right
     rw [if_pos hge]
-    exact ⟨fun y hy1 hy2 => h3 y hy1 (by omega), i, rfl⟩
+    exact ⟨fun y hy1 hy2 => h3 y hy1 (by omega), i, rfl, h1, h2⟩
   · left
     rw [if_neg hge]
     have hq : i / 64 < d.length := by rw [hw.1]; omega
@@ -455,7 +455,7 @@ theorem collect_spec {n : Nat} {d : Bits} (hw : WF n d) (hcap : Cap n) :
   | succ fuel ih =>
     intro idx hidx hf
     rw [collect]
-    rcases next_spec hw hcap idx hidx with ⟨j, j1, j2, j3, j4, e⟩ | ⟨hnone, i, e⟩
+    rcases next_spec hw hcap idx hidx with ⟨j, j1, j2, j3, j4, e⟩ | ⟨hnone, i, e, _, _⟩
     · rw [e]
       simp only []
       rw [ih (j + 1) (by omega) (by omega)]
@@ -470,6 +470,41 @@ theorem iter_abs {n : Nat} {b : Bits} {m : Spec} (h : Abs n b m) (hcap : Cap n) 
   obtain ⟨hw, hb⟩ := abs_iff.1 h
   unfold iterBits Spec.members
   rw [collect_spec hw hcap _ 0 (Nat.zero_le _) (by rw [hw.1]; omega), Nat.sub_zero, ← List.range_eq_range',
+    filter_bit_congr hb]
+
+/-- `k` calls of `next` drop the `k` smallest remaining members and nothing else. -/
+theorem advance_spec {n : Nat} {d : Bits} (hw : WF n d) (hcap : Cap n) :
+    ∀ k idx, idx ≤ 64 * n → ∃ idx', advance d k idx = .ok idx' ∧ idx' ≤ 64 * n ∧
+      (List.range' idx' (64 * n - idx')).filter (bit d) =
+        ((List.range' idx (64 * n - idx)).filter (bit d)).drop k := by
+  intro k
+  induction k with
+  | zero => intro idx hidx; exact ⟨idx, rfl, hidx, by simp⟩
+  | succ k ih =>
+    intro idx hidx
+    rw [advance]
+    rcases next_spec hw hcap idx hidx with ⟨j, j1, j2, j3, j4, e⟩ | ⟨hnone, i, e, i1, i2⟩
+    · rw [e]
+      simp only []
+      obtain ⟨idx', e', b', f'⟩ := ih (j + 1) (by omega)
+      refine ⟨idx', e', b', ?_⟩
+      rw [f', filter_range'_first j1 j2 j3 j4, List.drop_succ_cons]
+    · rw [e]
+      simp only []
+      obtain ⟨idx', e', b', f'⟩ := ih i i2
+      refine ⟨idx', e', b', ?_⟩
+      rw [f', filter_range'_none (fun y a b => hnone y (by omega) (by omega)),
+        filter_range'_none (fun y a b => hnone y a (by omega))]
+      simp
+
+theorem restAfter_abs {n : Nat} {b : Bits} {m : Spec} (h : Abs n b m) (hcap : Cap n) (k : Nat) :
+    restAfter b k = .ok ((m.members (64 * n)).drop k) := by
+  obtain ⟨hw, hb⟩ := abs_iff.1 h
+  obtain ⟨idx', e, hle, f⟩ := advance_spec hw hcap k 0 (Nat.zero_le _)
+  unfold restAfter Spec.members
+  rw [e]
+  simp only []
+  rw [collect_spec hw hcap _ idx' hle (by rw [hw.1]; omega), f, Nat.sub_zero, ← List.range_eq_range',
     filter_bit_congr hb]
 
 /-! ## §6 `==` and `Display` -/
@@ -548,6 +583,9 @@ theorem observeReg_abs {n : Nat} {b : Bits} {m : Spec} (h : Abs n b m) (hcap : C
     observeReg n b = .ok (specObserveReg n m) := by
   unfold observeReg debug
   rw [tests_abs h, count_abs h hcap, iter_abs h hcap, display_abs h hcap]
+  simp only []
+  rw [mapM_ok (fun k => (restAfter b k).map (Probe.mk k)) (fun k => ⟨k, (m.members (64 * n)).drop k⟩) _
+    (fun k _ => by rw [restAfter_abs h hcap k]; rfl)]
   rfl
 
 theorem regsAbs_length {n : Nat} : ∀ {bs : List Bits} {ms : List Spec}, RegsAbs n bs ms → bs.length = ms.length
